@@ -233,7 +233,7 @@ pub fn random_line_tokens(rng: &mut Rng) -> Vec<Vec<u8>> {
         0 => {
             // UNKNOWN
             let text: Vec<u8> = match rng.below(10) {
-                8 => t("  two  spaces   "),
+                8 => t(*rng.pick(&["  two  spaces   ", " PROXY UNKNOWN", " PROXY TCP4 1.2.3.4 5.6.7.8 1 2", " UNKNOWN UNKNOWN", " \n\n", " TCP4", " 65535 65535"])),
                 9 => {
                     let k = rng.range(2, 5) as usize;
                     let mut v = vec![b' '; k];
@@ -265,16 +265,22 @@ pub fn random_line_tokens(rng: &mut Rng) -> Vec<Vec<u8>> {
             vec![t("PROXY"), t(" "), t("UNKNOWN"), text, t("\r"), t("\n")]
         }
         1 | 2 => {
-            let (a, b) = (random_octets(rng), random_octets(rng));
+            let (a, mut b) = (random_octets(rng), random_octets(rng));
+            if rng.chance(1, 8) {
+                b = a; // equal source and destination
+            }
             let ip = |o: [u8; 4]| format!("{}.{}.{}.{}", o[0], o[1], o[2], o[3]).into_bytes();
             vec![
                 t("PROXY"), t(" "), t("TCP4"), t(" "), ip(a), t(" "), ip(b), t(" "),
-                random_port(rng).to_string().into_bytes(), t(" "),
+                { let p = random_port(rng); if rng.chance(1, 8) { a[3].to_string().into_bytes() } else { p.to_string().into_bytes() } }, t(" "),
                 random_port(rng).to_string().into_bytes(), t("\r"), t("\n"),
             ]
         }
         _ => {
-            let (a, b) = (random_groups(rng), random_groups(rng));
+            let (a, mut b) = (random_groups(rng), random_groups(rng));
+            if rng.chance(1, 10) {
+                b = a;
+            }
             if rng.chance(1, 8) {
                 // the longest lines the grammar allows: dotted tails push a TCP6 line to 107 bytes
                 let long = |g: [u16; 8]| format!("{:04x}:{:04x}:{:04x}:{:04x}:{:04x}:{:04x}:{}.{}.{}.{}", g[0], g[1], g[2], g[3], g[4], g[5], 200 + (g[6] % 56), 100 + (g[6] >> 8) % 100, 100 + (g[7] & 0xff) % 100, 255);
@@ -293,7 +299,11 @@ pub fn random_line_tokens(rng: &mut Rng) -> Vec<Vec<u8>> {
 }
 
 pub fn random_trailer(rng: &mut Rng) -> Vec<u8> {
-    match rng.below(10) {
+    match rng.below(14) {
+        10 => vec![0xff, 0xfe, 0x80],
+        11 => vec![0x16, 0x03, 0x01, 0x02, 0x00, 0x01, 0x00, 0x01, 0xfc, 0x03, 0x03, 0xd1, 0x9a],
+        12 => vec![0xe2, 0x82],
+        13 => { let n = rng.below(6) as usize; let mut v = vec![b'a'; n]; v.extend_from_slice("\u{20ac}\u{1F600}".as_bytes()); v }
         0 | 1 | 2 => vec![],
         3 => b"GET / HTTP/1.1\r\n\r\n".to_vec(),
         4 => b"5".to_vec(),
@@ -408,11 +418,39 @@ fn random_tlv_section(rng: &mut Rng, budget: usize) -> Vec<u8> {
 
 /// A header meant to be well formed (random valid control bytes, family-sized address block,
 /// TLV-ish tail), plus trailer.
+/// An address block of the family's size; now and then with a shape that means something to
+/// address-aware code (IPv4-mapped IPv6, equal source and destination, zeros, ones, NUL-heavy paths).
+fn address_block(fam: u8, rng: &mut Rng) -> Vec<u8> {
+    let n = family_size(fam);
+    let mut body = distinct_body(n, rng);
+    let mapped = |rng: &mut Rng| -> Vec<u8> {
+        let mut a = vec![0u8; 10];
+        a.extend_from_slice(&[0xff, 0xff]);
+        a.extend(rng.bytes(4));
+        a
+    };
+    match (fam, rng.below(10)) {
+        (2, 0) => { let (a, b) = (mapped(rng), mapped(rng)); body[..16].copy_from_slice(&a); body[16..32].copy_from_slice(&b); }
+        (2, 1) => { let a = mapped(rng); body[..16].copy_from_slice(&a); }
+        (2, 2) => { let a = mapped(rng); body[16..32].copy_from_slice(&a); }
+        (2, 3) => { for b in body[..32].iter_mut() { *b = 0; } body[15] = 1; }
+        (1, 0) | (2, 4) => { let half = if fam == 1 { 4 } else { 16 }; let (l, r) = body.split_at_mut(half); r[..half].copy_from_slice(l); }
+        (1, 1) => { let p = [body[8], body[9]]; body[10..12].copy_from_slice(&p); }
+        (1, 2) => { for b in body[..8].iter_mut() { *b = 0; } }
+        (1, 3) | (2, 5) => { for b in body.iter_mut() { *b = 0xff; } }
+        (3, 0) => { for b in body.iter_mut() { *b = 0; } body[1] = b'a'; body[109] = b'b'; }
+        (3, 1) => { let (l, r) = body.split_at_mut(108); r.copy_from_slice(l); }
+        (3, 2) => { for (i, b) in body.iter_mut().enumerate() { *b = if i % 108 < 9 { b'/' + (i % 7) as u8 } else { 0 }; } }
+        _ => {}
+    }
+    body
+}
+
 pub fn random_v2_good(rng: &mut Rng) -> Vec<u8> {
     let vc = 0x20 | rng.below(2) as u8;
     let fam = rng.below(4) as u8;
     let afp = (fam << 4) | rng.below(3) as u8;
-    let mut body = distinct_body(family_size(fam), rng);
+    let mut body = address_block(fam, rng);
     body.extend(random_tlv_section(rng, 80));
     v2_header(vc, afp, body.len() as u16, &body)
 }
@@ -515,7 +553,7 @@ pub fn generate(name: &str, count: usize, rng: &mut Rng, sink: &mut dyn FnMut(Se
                     2 => { toks[n - 1] = vec![]; }             // bare CR at end
                     3 => { toks[n - 2] = vec![]; toks[n - 1] = vec![]; } // no ending
                     4 => { let k = 1 + 2 * rng.below(((n - 3) / 2) as u64) as usize; if toks[k] == b" " { toks[k] = b"  ".to_vec(); } }
-                    5 => { let k = 1 + 2 * rng.below(((n - 3) / 2) as u64) as usize; if toks[k] == b" " { toks[k] = b"\t".to_vec(); } }
+                    5 => { let k = 1 + 2 * rng.below(((n - 3) / 2) as u64) as usize; if toks[k] == b" " { toks[k] = rng.pick(&[&b"\t"[..], &b"\r"[..], &b"\n"[..], &b"\r\n"[..], &b"\x00"[..], &b","[..]]).to_vec(); } }
                     6 => { let k = rng.range(1, (n - 2) as u64) as usize; toks.truncate(k); toks.push(b"\r".to_vec()); toks.push(b"\n".to_vec()); }
                     7 => { let k = rng.range(1, (n - 2) as u64) as usize; toks.truncate(k); toks.push(b"\r".to_vec()); toks.push(vec![*rng.pick(b"XP5 \r\x00")]); }
                     8 => { toks.insert(n - 2, b" ".to_vec()); }
@@ -529,6 +567,86 @@ pub fn generate(name: &str, count: usize, rng: &mut Rng, sink: &mut dyn FnMut(Se
                 }
                 let chunks = chunking(&bytes, rng, 5);
                 sink(Session { sid: format!("v1struct-{}", i), tag: json!({"g": "v1struct"}), chunks });
+            }
+        }
+        // byte-level mutation of lines meant to be well formed: 1-3 random edits (insert / delete /
+        // replace / duplicate) with bytes that matter to the grammar; what the result is, the
+        // specification decides
+        "v1mutate" => {
+            let interesting: &[u8] = b" \r\n\t\x00+-0159:.,aAfFgPT\xff\xc3\xa9\x7f";
+            for i in 0..count {
+                let mut bytes = random_line_tokens(rng).concat();
+                let edits = 1 + rng.below(3) as usize;
+                for _ in 0..edits {
+                    if bytes.is_empty() {
+                        break;
+                    }
+                    let pos = rng.below(bytes.len() as u64 + 1) as usize;
+                    match rng.below(5) {
+                        0 => bytes.insert(pos.min(bytes.len()), *rng.pick(interesting)),
+                        1 => { if pos < bytes.len() { bytes.remove(pos); } }
+                        2 => { if pos < bytes.len() { bytes[pos] = *rng.pick(interesting); } }
+                        3 => { if pos < bytes.len() { let b = bytes[pos]; bytes.insert(pos, b); } }
+                        _ => { if pos + 1 < bytes.len() { bytes.swap(pos, pos + 1); } }
+                    }
+                }
+                if rng.chance(1, 3) {
+                    bytes.extend(random_trailer(rng));
+                }
+                let chunks = chunking(&bytes, rng, 4);
+                sink(Session { sid: format!("v1mutate-{}", i), tag: json!({"g": "v1mutate"}), chunks });
+            }
+        }
+        // byte-level mutation of binary headers meant to be well formed
+        "v2mutate" => {
+            for i in 0..count {
+                let mut bytes = random_v2_good(rng);
+                let edits = 1 + rng.below(3) as usize;
+                for _ in 0..edits {
+                    let n = bytes.len();
+                    // edits concentrate on the fixed part and the first bytes of the payload
+                    let pos = if rng.chance(3, 4) { rng.below(n.min(20) as u64) as usize } else { rng.below(n as u64) as usize };
+                    match rng.below(5) {
+                        0 => bytes[pos] ^= 1 << rng.below(8),
+                        1 => bytes[pos] = *rng.pick(&[0u8, 1, 2, 3, 0x0f, 0x10, 0x20, 0x21, 0x22, 0x30, 0x31, 0x40, 0xff, 12, 36, 216]),
+                        2 => { bytes.remove(pos); }
+                        3 => bytes.insert(pos, rng.next() as u8),
+                        _ => { let cut = rng.below(n as u64 + 1) as usize; bytes.truncate(cut.max(1)); }
+                    }
+                    if bytes.is_empty() {
+                        bytes.push(13);
+                    }
+                }
+                if rng.chance(1, 3) {
+                    bytes.extend(random_trailer(rng));
+                }
+                let chunks = if bytes.len() > 120 { let n = bytes.len(); let cuts: Vec<usize> = (1..18).chain([n - 1, 231, 232, 233]).collect(); split_at(&bytes, &cuts) } else { chunking(&bytes, rng, 5) };
+                sink(Session { sid: format!("v2mutate-{}", i), tag: json!({"g": "v2mutate"}), chunks });
+            }
+        }
+        // every truncation point of a line (token boundaries and inside tokens) x every way the
+        // line can end there
+        "v1trunc" => {
+            let enders: [&[u8]; 9] = [b"\rX", b"\r\r", b"\r\n", b"\r", b"\n", b"", b"\r\r\n", b"\r ", b"\r\x00"];
+            for i in 0..count {
+                let toks = random_line_tokens(rng);
+                let n = toks.len();
+                for k in 0..(n - 1) {
+                    // cut after token k, or in the middle of token k
+                    let mut head: Vec<u8> = toks[..k].concat();
+                    if rng.chance(1, 3) && !toks[k].is_empty() {
+                        let part = rng.below(toks[k].len() as u64) as usize;
+                        head.extend_from_slice(&toks[k][..part]);
+                    }
+                    let ender = enders[(i + k) % enders.len()];
+                    let mut bytes = head;
+                    bytes.extend_from_slice(ender);
+                    if rng.chance(1, 3) {
+                        bytes.extend_from_slice(b"more");
+                    }
+                    let chunks = if rng.chance(1, 2) { split_each(&bytes) } else { vec![bytes.clone()] };
+                    sink(Session { sid: format!("v1trunc-{}-{}", i, k), tag: json!({"g": "v1trunc"}), chunks });
+                }
             }
         }
         // CR-free and CR-late inputs around the 107-byte limit
@@ -550,6 +668,15 @@ pub fn generate(name: &str, count: usize, rng: &mut Rng, sink: &mut dyn FnMut(Se
                     1 => { let p = *rng.pick(&[103usize, 104, 105, 105, 105, 106, 107, 108]); if p < bytes.len() { bytes[p] = b'\r'; if p + 1 < bytes.len() { bytes[p + 1] = b'\n'; } } }
                     2 => { bytes.extend_from_slice(b"\r\n"); }
                     _ => { let p = rng.range(104, 108) as usize; if p < bytes.len() { bytes.truncate(p); } bytes.extend_from_slice(b"\r\n"); }
+                }
+                // now and then a multi-byte character straddling the 104..=108 byte marks
+                if rng.chance(1, 3) {
+                    let at = rng.range(102, 108) as usize;
+                    if at < bytes.len() && bytes[at..].iter().take(4).all(|b| *b != b'\r' && *b != b'\n') {
+                        let ch = rng.pick(&["\u{e9}", "\u{20ac}", "\u{1F600}"]).as_bytes();
+                        let end = (at + ch.len()).min(bytes.len());
+                        bytes.splice(at..end, ch.iter().cloned());
+                    }
                 }
                 let cuts: Vec<usize> = (100..bytes.len().min(112)).collect();
                 let chunks = split_at(&bytes, &cuts);
